@@ -302,7 +302,13 @@ fn deserialize<'a>(ty: &OwnedDataModelType, data: &'a [u8]) -> Result<(Value, &'
                 }
             }
         }
-        OwnedDataModelType::Schema => todo!(),
+        OwnedDataModelType::Schema => {
+            // the value is itself a schema: use its own serde representation
+            let (schema, rest) = postcard::take_from_bytes::<OwnedDataModelType>(data)
+                .map_err(|_| Error::SchemaMismatch)?;
+            let val = serde_json::to_value(&schema).map_err(|_| Error::SchemaMismatch)?;
+            Ok((val, rest))
+        }
     }
 }
 
